@@ -131,6 +131,16 @@ def peels_update(conds, body=None, target=None):
     return True, "Call matched after peeling Update"
 
 
+def _type_knowledge(ty):
+    """the type knowledge of a declared variable of kind local / signal / component / anonymous (a component the
+    desugaring declared for an anonymous instantiation)"""
+    from finfun import E, S
+    from passeval import O
+
+    vt = {"local": E("VariableType", "Local"), "component": E("VariableType", "Component"), "anonymous": E("VariableType", "AnonymousComponent"), "signal": S("Signal", O("signal_type"), O("tags"))}[ty]
+    return O("type_knowledge", is_local=(ty == "local"), is_signal=(ty == "signal"), is_component=(ty in ("component", "anonymous")), variable_type=S("Some", vt))
+
+
 def eval_bn254_visitor(ctx, R, vs0):
     """the statement visitor of the BN254-specific pass, evaluated over operator x declared type x shape of the
     right-hand side x template name against a two-element table: a report exactly for the instantiation (scalar or
@@ -162,10 +172,10 @@ def eval_bn254_visitor(ctx, R, vs0):
     table = ("L", ("Sign", "Poseidon"))
     n = 0
     first_bad = {}
-    for op, ty, shape, name in itertools.product(["AssignLocalOrComponent", "AssignSignal", "AssignConstraintSignal"], ["local", "signal", "component"], ["call", "update", "number"], ["Sign", "Poseidon", "sign", "Sign2", "Poseidon ", "Num2Bits"]):
+    for op, ty, shape, name in itertools.product(["AssignLocalOrComponent", "AssignSignal", "AssignConstraintSignal"], ["local", "signal", "component", "anonymous"], ["call", "update", "number"], ["Sign", "Poseidon", "sign", "Sign2", "Poseidon ", "Num2Bits"]):
         call = V("Expression", "Call", meta=CM, name=name, args=("L", (O("arg0"),)))
         rhe = call if shape == "call" else (V("Expression", "Update", meta=O("update_meta"), var=O("var"), access=("L", ()), rhe=call) if shape == "update" else V("Expression", "Number", meta=O("num_meta"), value=1))
-        tk = O("type_knowledge", is_local=(ty == "local"), is_signal=(ty == "signal"), is_component=(ty == "component"))
+        tk = _type_knowledge(ty)
         stmt = V("Statement", "Substitution", meta=O("var_meta", type_knowledge=tk), var=O("var"), op=E("AssignOp", op), rhe=rhe)
         sink = Sink()
         argv = [stmt if r == "stmt" else (sink if r == "sink" else table) for r in roles]
@@ -175,7 +185,7 @@ def eval_bn254_visitor(ctx, R, vs0):
             ctx.note("bn254 visit_statement is outside the evaluator's subset (%s): shape obligations apply" % u)
             return False
         n += 1
-        want = op == "AssignLocalOrComponent" and ty == "component" and shape in ("call", "update") and name in table[1]
+        want = op == "AssignLocalOrComponent" and ty in ("component", "anonymous") and shape in ("call", "update") and name in table[1]
         got = sink.items
         ok = res is None and len(got) == (1 if want else 0) and (not want or (isinstance(got[0], tuple) and got[0][0] == "K" and CM in got[0][2]))
         if not ok:
@@ -562,7 +572,7 @@ def eval_nonstrict(ctx, R, vs0, top0, primes):
         return False
     CM, VM_ = O("component_meta"), None
     ops = ["AssignLocalOrComponent", "AssignSignal", "AssignConstraintSignal"]
-    types = ["local", "signal", "component"]
+    types = ["local", "signal", "component", "anonymous"]
     shapes = ["call", "update", "number"]
     names = ["Num2Bits", "Bits2Num", "Num2Bits_strict", "LessThan"]
     lens = [0, 1, 2]
@@ -580,7 +590,7 @@ def eval_nonstrict(ctx, R, vs0, top0, primes):
         args = ("L", tuple(O("arg%d" % j, value=(val if j == 0 else NONE)) for j in range(ln)))
         call = V("Expression", "Call", meta=CM, name=name, args=args)
         rhe = call if shape == "call" else (V("Expression", "Update", meta=O("update_meta"), var=O("var"), access=("L", ()), rhe=call) if shape == "update" else V("Expression", "Number", meta=O("num_meta"), value=1))
-        tk = O("type_knowledge", is_local=(ty == "local"), is_signal=(ty == "signal"), is_component=(ty == "component"))
+        tk = _type_knowledge(ty)
         stmt = V("Statement", "Substitution", meta=O("var_meta", type_knowledge=tk), var=O("var"), op=E("AssignOp", op), rhe=rhe)
         sink = Sink()
         argv = []
@@ -600,7 +610,7 @@ def eval_nonstrict(ctx, R, vs0, top0, primes):
         n += 1
         flagged_name = name in ("Num2Bits", "Bits2Num")
         safe = isinstance(size, int) and size < bits
-        want = op == "AssignLocalOrComponent" and ty == "component" and shape in ("call", "update") and flagged_name and ln == 1 and not safe
+        want = op == "AssignLocalOrComponent" and ty in ("component", "anonymous") and shape in ("call", "update") and flagged_name and ln == 1 and not safe
         got = sink.items
         ok = res is None and len(got) == (1 if want else 0)
         if ok and want:
@@ -897,7 +907,14 @@ def rule_fromstr(ctx):
         ctx.check(R, "Cli/curve-field-type", len(f) == 1 and f[0]["ty"] == "Curve", "curve: %s" % (f[0]["ty"] if f else "?"))
         text = facts.src(MAIN)
         mm = re.search(r"#\[clap\(([^\]]*)\)\]\s*curve\s*:", text)
+        if not mm:
+            mm = re.search(r"#\[clap\(((?:[^\[\]]|\[[^\]]*\])*?)\)\]\s*curve\s*:", text, re.S)
         ctx.check(R, "Cli/curve-default", bool(mm) and re.search(r"default_value\s*=\s*config::DEFAULT_CURVE", mm.group(1)) is not None, "attribute: %s" % (mm.group(1) if mm else "?"))
+        # the option's text goes to Curve::from_str and nowhere else first: an own value parser / list of possible values
+        # decides which spellings are accepted before from_str sees them
+        keys_ = set(re.findall(r"(\w+)\s*(?==|,|$)", re.sub(r"=\s*[^,]+", "=", mm.group(1)))) if mm else set()
+        extra_ = keys_ - {"short", "long", "name", "default_value", "help", "value_name", "long_help", "help_heading", "display_order"}
+        ctx.check(R, "Cli/curve-parsed-by-from_str-only", bool(mm) and not extra_, "clap attribute keys besides naming and default: %s" % sorted(extra_))
     import c03
     mainfn = c03.canon_main(ctx, R)
     if mainfn is not None:
